@@ -235,7 +235,7 @@ def run_stage_j(R, binary):
         scenarios=cases, applied_conf_changes=g("d:JF/"), proposals=g("d:JG/"), advances=g("d:JA/"), campaigns=g("d:JH/"), probes=g("d:JP/"),
         note="JF: RSJ.applyCC (the fold step of RSJ.cfgAt) on every node that applies; JG: RSJ.gateSeq with joint = len(Voters[1]) > 0 and per entry only what the gate "
              "looks at (conf change or not, len(Changes) == 0); JA: Advance's direct append; JH: RSJ.campaignGate; the safety theorem RSJ.C15_joint_holds is about the model "
-             "whose configuration part is compared here - whole joint schedules are not replayed on an executable handler (RHC.handleC is the single-change handler)")
+             "whose configuration part is compared here; whole joint schedules are replayed on the executable joint handler RHJ.handleJ by the suite member-joint-lockstep")
     for k, m in enumerate((mism + unk)[:3]):
         R.violation("raftsim-stageJ-%d" % k, dict(
             kind="tie-broken", engine="raftsim", suite="joint-through-rawnode", summary=m[:400], schedule=None, trace=[m.split(" :: ", 1)[-1]],
@@ -246,6 +246,130 @@ def run_stage_j(R, binary):
         R.violation("raftsim-stageJ-stray-%d" % k, dict(kind="tie-broken", engine="raftsim", suite="joint-through-rawnode", summary=l[:300], schedule=None, trace=[l],
                                                          explanation="the joint scenario engine reported an unexpected panic / error of RawNode"))
     return mism + unk + stray
+
+
+def run_member_joint(R, binary):
+    """suite "member-joint-lockstep" (Stage D, step 7): schedules of the profiles member-joint / member-joint-partition (lossy network, partitions, crashes,
+    restarts from snapshots, compaction, campaigns by anybody; membership proposals are ConfChangeV2 of every shape next to the legacy ConfChange, a quarter of them
+    batched into one proposal message) replayed event by event on the executable joint handler RHJ.handleJ (Raft/RHJ.lean; RHJ.runJ_safe)"""
+    if R.tier == "quick":
+        per_profile, events, workers = 8, 250, 1
+    else:
+        per_profile, events, workers = 400, 600, max(2, min(10, (os.cpu_count() or 4) - 2))
+    lines, harness_s, rc_all, t_suite = [], 0.0, 0, time.time()
+    for k, prof in enumerate(("member-joint", "member-joint-partition")):
+        t0 = time.time()
+        l1, se, rc = core.run_harness(binary, "raftsim", [], args=["-schedules", str(per_profile), "-events", str(events), "-seed", str(R.seed * 17 + 11 + k),
+                                                                  "-profile", prof, "-stageA", "0"])
+        harness_s += time.time() - t0
+        rc_all = rc_all or rc
+        lines += l1
+    # negative control: damage one event per schedule (the outgoing-voters field, else the term); the driver must object to each
+    ctl, damaged = [], 0
+    for start, sched in split_schedules(lines):
+        es = [i for i, l in enumerate(sched) if l.startswith("E ")]
+        if not sched or not sched[0].startswith("R ") or len(es) < 6 or damaged >= 8:
+            continue
+        sched = list(sched)
+        cand = [i for i in es if sched[i].split(" ")[-4] != "-"]
+        if cand:
+            at = cand[len(cand) // 2]
+            f = sched[at].split(" ")
+            f[-4] = "-"  # the node is said to have left the joint configuration
+        else:
+            at = es[len(es) // 2]
+            f = sched[at].split(" ")
+            f[4] = str(int(f[4]) + 7) if f[4].isdigit() else "7"
+        sched[at] = " ".join(f)
+        ctl += sched[:at + 1]  # the schedule up to the damaged event
+        damaged += 1
+    # the control runs beside the lock-step itself (each interpreted driver spends ~4 s loading the model)
+    with concurrent.futures.ThreadPoolExecutor(max_workers=2) as ex:
+        fut_ctl = ex.submit(run_raft_driver, ctl) if damaged else None
+        ds = run_driver_parallel(lines, workers)
+        dc = fut_ctl.result() if fut_ctl else None
+    mism = [m for d in ds for m in d["mismatches"] if " impl-safety :: " not in m]
+    unk = [u for d in ds for u in d["unknown"]]
+    summ = {}
+    for d in ds:
+        for k, v in d["summary"].items():
+            if v.isdigit():
+                summ[k] = summ.get(k, 0) + int(v)
+    evs = [l for l in lines if l.startswith("E ")]
+    safety = [(n, l) for n, l in enumerate(lines, 1) if l.startswith("SAFETY-VIOLATION") or l.startswith("HARNESS-BUG")]
+    agg = {}
+    for l in lines:
+        if l.startswith("# STATS"):
+            for k, v in parse_stats(l).items():
+                if isinstance(v, int) and k not in ("n", "events"):
+                    agg[k] = agg.get(k, 0) + v
+    need = ["in-j-apply+config-now-joint", "in-j-apply+config-now-simple", "in-j-advance+autoleave-appended", "in-j-gate/first/accepted", "in-j-gate/first/refused-pending",
+            "in-j-commit-by-joint-quorum", "in-j-hup+campaigns-joint", "in-j-restart", "in-j-recv-propFwd"]
+    if R.tier != "quick":
+        # the two rarer refusal reasons need a node that stays in an EXPLICIT joint configuration with nothing pending (0-10 per 4 000 events)
+        need += ["in-j-gate/first/refused-joint", "in-j-gate/first/refused-not-joint", "in-j-won-by-joint-quorum", "in-j-restart+config-now-joint"]
+    missing = [k for k in need if summ.get(k, 0) == 0] + (["scripted-joint-split"] if agg.get("scripted-joint-split", 0) == 0 else [])
+    nev = summ.get("events", 0)
+    nontrivial = summ.get("in-j-apply+config", 0) + summ.get("in-j-advance+autoleave-appended", 0) + summ.get("in-j-commit-by-joint-quorum", 0) + \
+        sum(v for k, v in summ.items() if k.startswith("in-j-gate/first/refused")) + summ.get("in-j-restart+config", 0)
+    pick = [l for l in evs if ";adv:" in l and l.split(" ")[-2] == "1"][:1] + [l for l in evs if " props:2" in l][:1] + \
+        [l for l in evs if l.split(" ")[-4] != "-" and " L " in l][:1]
+    R.add_cases(nev, nontrivial, samples=pick)
+    ok = rc_all == 0 and not mism and not unk and nev == len(evs) and nev > 0 and not missing and summ.get("member-joint-schedules", 0) == 2 * per_profile
+    R.oblige("lock-step with single AND joint membership changes inside lossy, restarting schedules: raft.RawNode = RHJ.handleJ on every event of the member-joint / "
+             "member-joint-partition schedules (ConfChangeV2 of every shape through ProposeConfChange, forwarded proposals and batched proposal messages; projection "
+             "incl. applied index, all five fields of the tracker config - voters, outgoing voters, learners, LearnersNext, AutoLeave - and the leader's pendingConfIndex; "
+             "every message a computed response or leaderOut; every recv enabled; the three-reason gate, ApplyConfChange, Advance's automatic leave, the campaign gate, "
+             "vote tallies and commit decisions by JointConfig, restarts from snapshots with joint ConfStates replayed)", "correspondence", ok,
+             "%d schedules, %d/%d events replayed, %d mismatches, %d unknown, never seen: %s" % (
+                 summ.get("member-joint-schedules", 0), nev, len(evs), len(mism), len(unk), ",".join(missing) or "-"))
+    R.oblige("safety predicates evaluated on the RawNodes' states after every event of the member-joint schedules (no panic of the Changer at apply time included)",
+             "search", not safety, "%d violations" % len(safety))
+    # the campaign gate of the same schedules, line by line (JH), and the legacy conf changes applied in them (CF)
+    tie_lines = [l for l in lines if l[:3] in ("JH ", "CF ")]
+    tie_mism = [m for m in mism if " :: JH " in m or " :: CF " in m]
+    R.oblige("member-joint schedules: every Campaign() campaigns iff RSJ.campaignGate (JH lines), every applied legacy ConfChange moves the tracker as RSC.applyChange (CF lines)",
+             "correspondence", not tie_mism and summ.get("d:JH", 0) + summ.get("d:CF", 0) == len(tie_lines), "%d lines judged of %d, %d mismatches" % (
+                 summ.get("d:JH", 0) + summ.get("d:CF", 0), len(tie_lines), len(tie_mism)))
+    if damaged:
+        hit = len(set(m.split()[1] for m in dc["mismatches"] + dc["unknown"] if len(m.split()) > 1))
+        R.oblige("negative control member-joint lock-step: the driver objects to damaged projections (outgoing voters dropped / term changed; %d schedules damaged, "
+                 "%d objections)" % (damaged, hit), "control", hit >= damaged, "%d of %d" % (hit, damaged))
+        R.extra.setdefault("negative_control", {})["member_joint_lockstep"] = dict(damaged=damaged, reported=hit)
+        if hit < damaged:
+            R.violation("negative-control-member-joint", dict(kind="tie-broken", summary="the member-joint lock-step driver accepted damaged projections (%d of %d reported)" % (
+                hit, damaged), trace=ctl[:60]), found_input=False)
+    R.suites.append(dict(name="member-joint-lockstep", schedules=summ.get("member-joint-schedules", 0), events=nev, mismatches=len(mism) + len(unk),
+                         safety_violations=len(safety), wall_s=round(time.time() - t_suite, 1), harness_s=round(harness_s, 1), driver_s=round(max(d["seconds"] for d in ds), 1), driver_processes=len(ds)))
+    R.extra["stageD_member_joint_lockstep"] = dict(
+        schedules=summ.get("member-joint-schedules", 0), events=nev, mismatches=len(mism) + len(unk),
+        model_inputs={k[5:]: v for k, v in sorted(summ.items()) if k.startswith("in-j-")},
+        proposed={k[13:]: v for k, v in sorted(agg.items()) if k.startswith("confchangev2-")}, legacy_proposed={k[11:]: v for k, v in agg.items() if k.startswith("confchange-C")},
+        autoleave_appended_by_rawnode=agg.get("autoleave-appended", 0), scripted_joint_split_prologues=agg.get("scripted-joint-split", 0), restarts=agg.get("restarts", 0), snapshots_restored=agg.get("snap-restored", 0),
+        campaigns=summ.get("d:JH", 0),
+        note="inputs of RHJ.handleJ by kind; +config: the node's configuration (RSJ.cfgAt of its own log at its applied index) changed, now-joint / now-simple says into what; "
+             "advance+autoleave-appended: the handler's leader appended the empty ConfChangeV2 (and so did RawNode - the logs are compared); gate/first/*: what the "
+             "three-reason gate did with the first conf change of a proposal message stepped on a leader; commit-by-joint-quorum / won-by-joint-quorum: decisions taken "
+             "under a joint configuration; scripted_joint_split_prologues: five-node schedules that start with (1 3 4 5)&&(1 2 3), 2 and 3 cut off, a proposal acknowledged and a candidate "
+             "supported by a majority of the incoming half only (neither may succeed - a decision that looked at one half only is a lock-step mismatch: checked with two mutants of "
+             "quorum/joint.go). RHJ.runJ_safe proves the four safety properties for every run of this handler")
+    for k, sv in enumerate(safety[:2]):
+        hdr, prefix = schedule_of_line(lines, sv[0])
+        f = hdr.split()
+        R.violation("raftsim-member-joint-safety-%d" % k, dict(
+            kind="impl-violates-spec", engine="raftsim", suite="member-joint-lockstep", summary=sv[1][:300],
+            schedule=dict(n=int(f[1]), seed=int(f[2]), profile=f[3], events=int(f[4])), trace=prefix[-400:],
+            explanation="a C15 safety predicate failed (or RawNode panicked) on a schedule with joint membership changes; the trace is the schedule prefix"))
+    for k, m in enumerate((mism + unk)[:3]):
+        n = int(m.split()[1])
+        hdr, prefix = schedule_of_line(lines, n)
+        f = hdr.split()
+        sched = dict(n=int(f[1]), seed=int(f[2]), profile=f[3], events=int(f[4])) if hdr.startswith("R ") and len(f) >= 5 else None
+        R.violation("raftsim-member-joint-lockstep-%d" % k, dict(
+            kind="tie-broken", engine="raftsim", suite="member-joint-lockstep", summary=m[:400], schedule=sched, trace=prefix[-400:] if sched else [lines[n - 1]],
+            explanation="raft.RawNode and the executable joint-configuration handler RHJ.handleJ disagree on this event: RHJ.runJ_safe (proved about handleJ) no longer "
+                        "transfers to the code until the model or the code is repaired"))
+    return mism + unk + [l for _, l in safety]
 
 
 def run_driver_chunks(lines, workers):
@@ -429,6 +553,9 @@ def run(R, ctx):
 
     # ---- Stage D, last step: joint configuration changes through RawNode against Raft/RSJ.lean
     mism_d = mism_d + run_stage_j(R, binary)
+
+    # ---- Stage D, step 7: schedules with joint changes replayed on the executable joint handler RHJ.handleJ
+    mism_d = mism_d + run_member_joint(R, binary)
 
     # ---- failing schedules
     for k, sv in enumerate(safety[:3]):
